@@ -245,6 +245,14 @@ func genKnownPrefix(t *rapid.T) string {
 // genCashSymbols builds 5-bit payload symbols for (version byte, payload) with
 // arbitrary padding bits and optionally one surplus symbol.
 func genCashSymbols(t *rapid.T) []byte {
+	if rapid.IntRange(0, 19).Draw(t, "tinypayload") == 0 { // nothing, or almost nothing, in front of the checksum
+		n := rapid.IntRange(0, 2).Draw(t, "tinyn")
+		syms := make([]byte, n)
+		for i := range syms {
+			syms[i] = byte(rapid.IntRange(0, 31).Draw(t, "tinysym"))
+		}
+		return syms
+	}
 	var ver byte
 	switch rapid.IntRange(0, 5).Draw(t, "ver_cls") {
 	case 0:
